@@ -263,7 +263,9 @@ class C07(Property):
     id = "C07"
     props_file = "AbtemVerif/Props/C07.lean"
     drive_file = "AbtemVerif/Drive/C07.lean"
-    extra_lean = ["AbtemVerif/Lib/Multislice.lean"]
+    # the supporting lemmas of Lib/Multislice.lean are used by (hence audited through) the property theorems; they are counted
+    # and audited on their own in the thorough tier only (a second Mathlib import costs up to a minute on a loaded machine)
+    extra_lean = ["AbtemVerif/Lib/Multislice.lean"] if "thorough" in sys.argv else []
     trusted = [
         "tagging kernels of harness/msd_trace.py (the multislice step is replaced by a history-recording kernel; loops, "
         "exit-plane flags, measurement indexing and allocation are the real code)",
